@@ -116,8 +116,10 @@ func c06Masked(c *Ctx, r *Report, rule string) {
 		sc.Alts = func(callee string, args []SV, ev *symEval, st *symState) []CallAlt {
 			parser := func(errDesc string) []CallAlt {
 				rd := args[0]
-				if strings.Contains(callee, "handleHttp2") {
-					rd = args[1]
+				for _, a := range args { // the reader among the arguments: the bufio.Reader the scenario made
+					if _, isBuf := st.heap[a.Desc+".inner"]; isBuf {
+						rd = a
+					}
 				}
 				ok := CallAlt{Ret: symNil(), Note: "complete"}
 				if callee == "net/http.ReadRequest" {
